@@ -36,7 +36,9 @@ ASSUMPTIONS = [
     "Parseval: the frequency integral must equal the window-weighted mean square of the segments either with or "
     "without their means removed (the statement does not fix the detrending)",
     "delay relation judged in the source's row, Sy[s,c]/Sy[s,s] = g*exp(-2*pi*i*f*d/fs): 5 % at every line >= 2 ('per'), "
-    "30 % in the median over lines >= 2 ('cor'); records of 20 and 60 segments",
+    "30 % in the median over lines >= 2 ('cor'); records of 60 and 100 segments (the statement fixes no length for this test; "
+    "at 20 segments without overlap the estimator's scatter on the unchanged tree reaches 4.6 %, too close to the 5 % limit "
+    "to be judged without false alarms; at >= 60 segments it stays below 2.5 % over seeds 0..9)",
     "only even nxseg and integer nxseg*pov, as in the quantifier",
 ]
 
@@ -460,8 +462,8 @@ def delay_lattice(thorough):
         for d in ds:
             for g in (0.1, -0.1, 1.0, -1.0, 10.0, -10.0):
                 for pov in (POVS if thorough else (0.0, 0.5)):
-                    for nseg in (20, 60):
-                        if nxseg == 4096 and nseg == 60:
+                    for nseg in (60, 100):
+                        if nxseg == 4096 and nseg == 100:
                             continue
                         for fs in (0.01, 100.0):
                             for method in ("per", "cor"):
@@ -502,7 +504,7 @@ def explore(ctx):
                     "nxseg": sorted({c[3] for c in L}), "pov": list(POVS), "length_in_segments": [2, 3, 5.5], "fs": [0.01, 1.0, 100.0],
                     "methods": ["per", "cor"], "library_calls_per_point": 7},
         "delay": {"points": len(D), "nxseg": sorted({c[4] for c in D}), "delays": "1..nxseg/64 (all up to 16, then 1..8,12,16,24,32,48,63,64)",
-                  "gains": [0.1, -0.1, 1.0, -1.0, 10.0, -10.0], "pov": sorted({c[7] for c in D}), "segments": [20, 60], "fs": [0.01, 100.0],
+                  "gains": [0.1, -0.1, 1.0, -1.0, 10.0, -10.0], "pov": sorted({c[7] for c in D}), "segments": [60, 100], "fs": [0.01, 100.0],
                   "placements(n,source,copy)": [(2, 0, 1), (2, 1, 0), (3, 0, 2), (3, 2, 1)], "methods": ["per", "cor"]},
         "sine": {"items": len(S), "nxseg": [16, 32, 64], "lines": "every k in 1..nxseg/2-1", "amplitudes": list(AMPS), "channels": [2, 3],
                  "amplitude_tuples": "all of amplitudes^channels", "pov": list(POVS), "length_in_segments": [2, 3, 5.5], "fs": [0.01, 1.0, 100.0]},
